@@ -114,6 +114,18 @@ def build(rng, tier):
         inst = f"uq_{j}"
         ops = [f"eng new {inst} uq par {t}"] + engcheck.load_ops(inst, inp) + [f"eng runpp {inst} {t}", f"eng dump {inst}", f"eng iters {inst}"]
         cases.append(engcheck.Case("uq", inst, ops, {"inp": inp, "kind": "unique-index-scan-odd-pool", "threads": t}))
+    # wide (arity 6-8) and nullary relations and facts under ascent_par! (gen.forced_programs): the concurrent full index with a unit key, tuple keys of 4 and 5 columns
+    for pid0, q in gen.forced_programs().items():
+        pid = pid0 + "p"
+        progs[pid] = q
+        mods.append((pid, eng.rs_module(pid, q, macro="ascent_par")))
+        for j in range(4 if tier == "quick" else 12):
+            r2 = rng.fork(f"{pid}i{j}")
+            inp = gen.forced_input(pid0, r2, j)
+            t = r2.choice([1, 2, 3, 4, 8])
+            inst = f"{pid}_{j}"
+            ops = [f"eng perturb {1 + r2.below(10 ** 9)}", f"eng new {inst} {pid} par {t}"] + engcheck.load_ops(inst, inp) + [f"eng runpp {inst} {t}", f"eng dump {inst}", f"eng iters {inst}", "eng perturb 0"]
+            cases.append(engcheck.Case(pid, inst, ops, {"inp": inp, "kind": "forced-" + pid0, "threads": t}))
     # a BYODS relation in parallel mode: `#[ds(eqrel)]` filled over SEVERAL iterations of its stratum - eq(x, y) <-- seed(x, y);  eq(x, y) <-- link(x, y), eq(x, _), eq(y, _);
     # out(x, y) <-- eq(x, y) - on inputs whose last productive iteration only MERGES classes of elements that are all known already (links between seeded classes); the parallel
     # provider (ceqrel_ind.rs) must hand the merged partition on to `total`.  Model side: the serial Lean engine on the explicit-closure twin; the tagged relation (a FakeVec) is masked
